@@ -13,13 +13,13 @@ from .c04 import make_interp, install_rules, FUNCS
 from .c02 import SLOT, KINDS, MAXY, find_if
 
 LEVEL = 'other'
-TECHNIQUE = 'dimensional analysis as scaling covariance: every solver kernel (ODE matrices, starting vectors, interface maps, boundary values, collapse, Love extraction, re-dimensionalisation factors) is extracted symbolically and checked to transform with its physical dimension under arbitrary changes of the kg, m, s units (polynomial identity testing); round trip of the in-place non-dimensionalisation; writer/reader agreement of the solution layout'
-LEVEL_TEXT = ('Integrator/grid invariance and the Saito-Molodensky relation need the numerical solution and are not decided. Decided: dimensional homogeneity of every formula in the solve, which is exactly what makes '
+TECHNIQUE = 'dimensional analysis as scaling covariance: every solver kernel (ODE matrices, starting vectors, interface maps, boundary values, collapse, Love extraction, re-dimensionalisation factors) is extracted symbolically and checked to transform with its physical dimension under arbitrary changes of the kg, m, s units (polynomial identity testing); round trip of the in-place non-dimensionalisation; writer/reader agreement of the solution layout; reciprocity (Saito-Molodensky) by conservation of the bilinear concomitant of the ODE classes, its continuity under the interface conditions and its surface value under the solver\'s own tidal and loading boundary vectors'
+LEVEL_TEXT = ('Integrator/grid invariance needs the numerical solution and is not decided. The Saito-Molodensky relation k_load = k_tidal - h_tidal is decided at formula level (R03.5): it holds for the exact solutions of the implemented equations, interface conditions, boundary vectors and Love extraction. Decided as well: dimensional homogeneity of every formula in the solve, which is exactly what makes '
               'the result independent of internal non-dimensionalisation and of an exact rescaling of the planet (lengths x a, moduli x a^2, gravity x a at fixed density and frequency is one subgroup of the unit changes); '
               'non-dimensionalise then re-dimensionalise is the identity on all five arrays and four scalars; the solution-type layout is written and read with the same index polynomial.')
 LEVEL_NOTE = ('Trusted: front-end, interpreter, the assignment of physical dimensions to inputs (radius m, density kg m-3, moduli Pa, gravity m s-2, frequency s-1, G m3 kg-1 s-2; y1,y3 s2 m-1; y2,y4 kg m-3; y5 1; y6,y7 m-1). '
               'The absolute integration tolerance `atol` is a dimensional number applied to non-dimensional and dimensional solves alike (assumption, affects accuracy only).')
-EXPLANATION = 'R03.1 non-dim o re-dim == identity and conversion factors carry the right dimension; R03.2 scaling covariance of all kernels; R03.3 solution layout agreement.'
+EXPLANATION = 'R03.1 non-dim o re-dim == identity and conversion factors carry the right dimension; R03.2 scaling covariance of all kernels; R03.3 solution layout agreement (writer collapse for every layer kind, readers by interpretation); R03.4 sibling unit system; R03.5 reciprocity: W(tidal, loading) conserved in every layer kind, continuous across interfaces, and equal to (2l+1)R/(4 pi G) [k_t - h_t - k_load] at the surface.'
 
 
 def run(chk):
